@@ -331,6 +331,8 @@ class Rule(MethodMeek):
                 for c in C.elected():
                     #c.kf = V.muldiv(c.kf, E.quota, c.vote, round='up')  # OpenSTV variant
                     c.kf = V.div(V.mul(c.kf, E.quota, round='up'), c.vote, round='up')  # NZ variant
+                    if c.kf > V1:   # a tally rounded just below the quota would carry the keep factor past 1
+                        c.kf = V1
 
         #########################
         #
